@@ -4,7 +4,8 @@ translator validation against the real functions; L1 model of the capacity opera
 container; oracle = the property predicate evaluated on the real code (index enumeration + address stability)."""
 import os, sys, bisect
 
-GEN = ['gen_log2_64.json', 'gen_log2_32.json', 'gen_segsqrt.json', 'gen_segcnst.json', 'gen_arr_sqrt.json', 'gen_arr_cnst.json', 'gen_arr_log.json']
+GEN = ['gen_log2_64.json', 'gen_log2_32.json', 'gen_segsqrt.json', 'gen_segcnst.json', 'gen_arr_sqrt.json', 'gen_arr_cnst.json', 'gen_arr_log.json',
+       'gen_shift_sqrt.json', 'gen_shift_cnst.json']
 M64 = 2 ** 64
 PAR = 8
 
@@ -217,9 +218,14 @@ def gen_ghist_cases(ctx, scale):
             elif t < 80: ops.append('K%d' % r.choice([near(), r.below(limit), 0, max(0, cnt - 1), cnt, cnt + 1, SIZE_MAX]))
             elif t < 92:
                 k = min(r.choice([1, 0, cnt, r.below(cnt + 1), max(0, cnt - near())]), cnt); ops.append('b%d' % k); cnt -= k
-            elif t < 94: ops.append('c'); cnt = 0
-            elif t < 96: ops.append('C'); cnt = 0
-            else: ops.append(r.choice('no'))   # AddBackNogrow when there is room; the generator's count stays a lower bound
+            elif t < 93: ops.append('c'); cnt = 0
+            elif t < 95: ops.append('C'); cnt = 0
+            elif t < 97: ops.append(r.choice('no'))
+            elif cnt <= 500:   # Insert / Remove in the middle through the regenerated ArrayShifter (kept small: the driver re-evaluates the cell function)
+                if r.chance(1, 2):
+                    m = r.choice([0, 1, 2, r.range(1, 30)]); p_ = r.choice([0, cnt, r.below(cnt + 1)]); ops.append('I%d:%d' % (p_, m)); cnt += m
+                else:
+                    p_ = r.choice([0, cnt, r.below(cnt + 1)]); m = min(r.choice([0, 1, r.below(cnt - p_ + 1), cnt - p_]), cnt - p_); ops.append('D%d:%d' % (p_, m)); cnt -= m   # AddBackNogrow when there is room; the generator's count stays a lower bound
         cases.append('ghist %s %d %s' % (F, L, ' '.join(ops)))
     return cases
 
